@@ -70,7 +70,10 @@ def run(ctx):
     for k in range(ctx.n(45, 900)):
         kind = str(r.choice(['ro', 'dro', 'det']))
         rr, seed = G.sub_rng(r)
-        d = O.gen_model(rr) if kind == 'ro' else (D.gen(rr) if kind == 'dro' else DM.gen(rr))
+        if kind == 'det' and rr.random() < 0.35:
+            d = DM.gen(rr, atoms=['abs', 'norm1', 'norminf'], integer=True)       # MILPs: the default interface's integer branch
+        else:
+            d = O.gen_model(rr) if kind == 'ro' else (D.gen(rr) if kind == 'dro' else DM.gen(rr, integer=bool(rr.random() < 0.3)))
         d['seed'] = seed
         specs.append((kind, d))
     first = []
@@ -104,9 +107,34 @@ def run(ctx):
                     v2 = C.solve_model(m)
                 except (RuntimeError, C.SkipCase):
                     v2 = None
+                # every other way of solving leaves the cached program alone too: the default interface (its MILP branch
+                # adjusts bounds of binaries), and the SOC approximation of exponential cones
+                f_ = m.do_math()
+                extra_changed = []
+                if not getattr(f_, 'qmat', None) and not getattr(f_, 'xmat', None):
+                    try:
+                        m.solve(display=False)
+                    except Exception:
+                        pass
+                    p5 = C.prog_json(m.do_math()); p5 = {k: p5[k] for k in KEYS}
+                    if p5 != p1:
+                        extra_changed.append('program-after-default-solve')
+                    ctx.count('resolve:default-interface' + (':integer' if any(t != 'C' for t in f_.vtype) else ''))
+                if getattr(f_, 'xmat', None) and C.ecos_safe(f_):
+                    from rsome import eco_solver
+                    try:
+                        m.soc_solve(eco_solver, display=False)
+                    except Exception:
+                        pass
+                    p6 = C.prog_json(m.do_math()); p6 = {k: p6[k] for k in KEYS}
+                    if p6 != p1:
+                        extra_changed.append('program-after-soc_solve')
+                    ctx.count('resolve:soc_solve')
         except Exception as ex:
             ctx.hit('repeat-raises:' + type(ex).__name__, {"error": str(ex)[:200]}, case); continue
-        if p3 != p1 or p4 != p1 or d3 != d1:
+        if extra_changed:
+            ctx.hit('solving-changes-the-cached-program', {"changed": extra_changed}, case)
+        elif p3 != p1 or p4 != p1 or d3 != d1:
             ctx.hit('repeated-formulation-differs', {"primal_after_dual": p3 != p1, "primal_after_solve": p4 != p1, "dual_again": d3 != d1}, case)
         elif (v1 is None) != (v2 is None) or (v1 is not None and v1 != v2 and abs(v1 - v2) > 1e-9 * (1 + abs(v1))):
             ctx.hit('repeated-solve-differs', {"first": v1, "second": v2}, case)
@@ -158,6 +186,11 @@ def user_data(ctx):
         Q = B.T @ B + np.eye(n)
         psd = bool(r.random() < 0.5)
         Qm = (Q if psd else -Q).copy()
+        order = str(r.choice(['C', 'F', 'F-view']))
+        if order == 'F':
+            Qm = np.asfortranarray(Qm)                 # column-major user matrix (LAPACK routines may work in place on those)
+        elif order == 'F-view':
+            Qm = np.ascontiguousarray(Qm.T).T          # a transposed view, as cov().values or a.T would give
         cvec = r.integers(-3, 4, n).astype(dt)
         lo = (-np.abs(r.integers(1, 3, 2))).astype(dt); hi = np.abs(r.integers(1, 3, 2)).astype(dt)
         ro_arrays = bool(r.random() < 0.5)
@@ -166,7 +199,7 @@ def user_data(ctx):
             for a in (bvec, Qm, cvec, lo, hi, base):
                 a.setflags(write=False)
         snap = {k_: np.array(v, copy=True) for k_, v in arrays.items()}
-        case = {"dtype": np.dtype(dt).name, "read_only": ro_arrays, "psd": psd}
+        case = {"dtype": np.dtype(dt).name, "read_only": ro_arrays, "psd": psd, "Q_memory_order": order}
         ctx.nontriv(dict(case, k=k))
         try:
             m = ro.Model(); x = m.dvar(n); z = m.rvar(2)
